@@ -123,6 +123,14 @@ func verifyUnit(p *Program, u *Unit) (res *UnitResult) {
 		}
 	}
 	// ghost abstract index of the element generator in use (DESIGN.md 3.3)
+	// ghost parameters of this unit and of its enclosing functions: arbitrary values (constrained by the requires)
+	for gu := u; gu != nil; gu = gu.Parent {
+		for _, gp := range gu.GhostParams {
+			if _, ok := st.ghost[gp.Name]; !ok {
+				st.ghost[gp.Name] = r.valOfSort(r.fresh("ghost_"+gp.Name, gp.Sort), gp.Sort)
+			}
+		}
+	}
 	// (one index per generator: a map from function values to indices)
 	r.needFn()
 	st.ghost["genIdx"] = Val{K: KRef, T: r.fresh("genIdx", genIdxSort), Sort: genIdxSort}
